@@ -449,6 +449,13 @@ func (c *Ctx) loopsIn(d *declInfo) []*loopInfo {
 					if tup, isTup := t.(*types.Tuple); isTup && tup.Len() > 0 {
 						t = tup.At(0).Type()
 					}
+					// an unexported named container of the module is the container it names
+					if nt, isNamed := t.(*types.Named); isNamed && nt.Obj().Pkg() != nil && strings.HasPrefix(nt.Obj().Pkg().Path(), modPath+"/") && !nt.Obj().Exported() {
+						switch nt.Underlying().(type) {
+						case *types.Map, *types.Slice:
+							t = nt.Underlying()
+						}
+					}
 					li.typeID = owner + "/" + types.TypeString(t, func(p *types.Package) string { return p.Name() })
 				}
 			}
@@ -697,6 +704,14 @@ func (c *Ctx) classifyAtom0(d *declInfo, li *loopInfo, ifs *ast.IfStmt, a ast.Ex
 			if def, ok := defs[o]; ok {
 				if ce, ok := def.(*ast.CallExpr); ok {
 					if f, _ := typeutil.Callee(info, ce).(*types.Func); f != nil {
+						// the second result of a module converter (v, ok): !ok says the value has no image
+						if sig, _ := f.Type().(*types.Signature); sig != nil && sig.Results().Len() == 2 && f.Pkg() != nil && strings.HasPrefix(f.Pkg().Path(), modPath+"/") {
+							if b, isB := sig.Results().At(1).Type().Underlying().(*types.Basic); isB && b.Kind() == types.Bool && types.Identical(o.Type().Underlying(), b) {
+								if _, firstIsBool := sig.Results().At(0).Type().Underlying().(*types.Basic); !firstIsBool || sig.Results().At(0).Type().Underlying().(*types.Basic).Kind() != types.Bool {
+									return "inexpressible(" + objName(f) + ")\x00NEQ", text + " — the converter reports the value is not expressible"
+								}
+							}
+						}
 						return "predicate(" + objName(f) + ")", text
 					}
 				}
@@ -967,6 +982,35 @@ func (c *Ctx) loopTotality(rule string, ds []*declInfo, table map[string]loopPol
 				}
 				c.bad(rule, li.id+"#skip:"+key, where, fmt.Sprintf("conversion loop over %s (accumulating: %s) lets an element reach the next iteration without being converted, under [%s]; no decision on that path is in the loop's allowed-skip table: the element is silently dropped", li.subject, li.accs[0].what, strings.Join(descs, "; ")))
 			}
+			// the accumulate step is a helper call: the helper's own exits decide as well
+			for _, acc := range li.accs {
+				var ce *ast.CallExpr
+				switch st := acc.stmt.(type) {
+				case *ast.ExprStmt:
+					ce, _ = st.X.(*ast.CallExpr)
+				case *ast.IfStmt:
+					if as, ok := st.Init.(*ast.AssignStmt); ok && len(as.Rhs) == 1 {
+						ce, _ = as.Rhs[0].(*ast.CallExpr)
+					}
+				}
+				if ce == nil || !strings.HasPrefix(acc.what, "call ") {
+					continue
+				}
+				f, _ := typeutil.Callee(d.pkg.TypesInfo, ce).(*types.Func)
+				if f == nil || f.Pkg() == nil || !strings.HasPrefix(f.Pkg().Path(), modPath+"/") || f == d.obj {
+					continue
+				}
+				guards := calleeWriteGuards(f)
+				if len(guards) == 0 {
+					continue
+				}
+				cls := "callee-guard(" + objName(f) + ")"
+				if admitted(cls, pol.skips) || admitted(cls, commonSkips) {
+					continue
+				}
+				bad = true
+				c.bad(rule, li.id+"#skip:"+cls, c.P.Pos(ce.Pos()), fmt.Sprintf("the loop over %s hands each element to %s, which takes it only when [%s] allows: elements failing that test are silently dropped, and nothing in the loop's allowed-skip table admits it", li.subject, objName(f), strings.Join(guards, "; ")))
+			}
 			// loop-carried alias: the address of a variable that outlives one iteration is
 			// stored into a per-iteration element — every element ends up sharing one buffer
 			// … or appended to the list being built: `xs = append(xs, &v)` with v declared outside
@@ -1072,6 +1116,10 @@ func admitted(class string, m map[string]string) bool {
 type pathState struct {
 	acc       bool
 	decisions []guard
+	// the only accumulate step so far sits in a nested loop (it took elements of the sub-collection)
+	nestedOnly bool
+	// decisions taken after that nested loop
+	afterNested []guard
 }
 
 const maxPaths = 4096
@@ -1164,7 +1212,10 @@ func (c *Ctx) enumSkipPaths(d *declInfo, li *loopInfo, labels map[string]ast.Stm
 		return cur
 	}
 	withDecision := func(in pathState, gs []guard) pathState {
-		out := pathState{acc: in.acc, decisions: append(append([]guard{}, in.decisions...), gs...)}
+		out := pathState{acc: in.acc, decisions: append(append([]guard{}, in.decisions...), gs...), nestedOnly: in.nestedOnly, afterNested: in.afterNested}
+		if in.nestedOnly {
+			out.afterNested = append(append([]guard{}, in.afterNested...), gs...)
+		}
 		return out
 	}
 	one = func(s ast.Stmt, in pathState) []outcome {
@@ -1174,6 +1225,7 @@ func (c *Ctx) enumSkipPaths(d *declInfo, li *loopInfo, labels map[string]ast.Stm
 				// `if err := x.Relate(...); err != nil { return err }`: the call happened
 				st := in
 				st.acc = true
+				st.nestedOnly = false
 				var res []outcome
 				res = append(res, run(ifs.Body.List, st)...)
 				if ifs.Else != nil {
@@ -1185,6 +1237,7 @@ func (c *Ctx) enumSkipPaths(d *declInfo, li *loopInfo, labels map[string]ast.Stm
 			}
 			st := in
 			st.acc = true
+			st.nestedOnly = false
 			return []outcome{{st: st}}
 		}
 		switch x := s.(type) {
@@ -1354,6 +1407,9 @@ func (c *Ctx) enumSkipPaths(d *declInfo, li *loopInfo, labels map[string]ast.Stm
 		case *ast.RangeStmt, *ast.ForStmt:
 			st := in
 			if containsAcc(x) {
+				if !st.acc {
+					st.nestedOnly = true
+				}
 				st.acc = true // element-wise conversion of a sub-collection
 			}
 			return []outcome{{st: st}}
@@ -1388,8 +1444,37 @@ func (c *Ctx) enumSkipPaths(d *declInfo, li *loopInfo, labels map[string]ast.Stm
 		}
 		return []outcome{{st: in}}
 	}
+	// own-level steps: accumulate statements that are not inside a nested loop
+	ownSteps := 0
+	for _, a := range li.accs {
+		nested := false
+		for _, en := range enclosing(li.body, a.stmt) {
+			if en == ast.Node(a.stmt) {
+				continue
+			}
+			switch en.(type) {
+			case *ast.ForStmt, *ast.RangeStmt:
+				nested = true
+			}
+		}
+		if !nested {
+			ownSteps++
+		}
+	}
 	for _, o := range run(li.body.List, pathState{}) {
-		if o.end == "exit" || o.st.acc {
+		if o.end == "exit" {
+			continue
+		}
+		if o.st.acc {
+			// the element's parts were handed on by a nested loop, and a decision taken after that
+			// loop then steered around the step that takes the element itself
+			if o.st.nestedOnly && ownSteps > 0 && len(o.st.afterNested) > 0 {
+				end, pos := o.end, o.pos
+				if end == "" {
+					end, pos = "fallthrough", li.body.Rbrace
+				}
+				li.paths = append(li.paths, skipPath{end: end, endPos: pos, decisions: o.st.afterNested})
+			}
 			continue
 		}
 		end := o.end
@@ -1578,6 +1663,9 @@ func boolSetLookup(d *declInfo, e ast.Expr) *ast.IndexExpr {
 	ix, ok := e.(*ast.IndexExpr)
 	if !ok {
 		return nil
+	}
+	if setHasExprs[ix] {
+		return ix // a named set's has(k), inlined: membership whatever the value type
 	}
 	mt := d.pkg.TypesInfo.TypeOf(ix.X)
 	if mt == nil {
